@@ -2561,7 +2561,12 @@ where
                     };
 
                     if matches_end_condition {
-                        container = self.finalize(container).unwrap();
+                        let block = container;
+                        container = self.finalize(block).unwrap();
+                        // The block ends with the line that met its end
+                        // condition, not with the line before it.
+                        block.data.borrow_mut().sourcepos.end =
+                            (self.line_number, self.curline_end_col).into();
                     }
                 }
                 _ => {
